@@ -93,6 +93,22 @@ def eintr_scenarios():
     ]
 
 
+def fail_scenarios():
+    """(setup, op, tail): scripted failures of every system call of the op (tools/props/ipc.py fail_cases)"""
+    holder = ["1 new-sem 1 s0 2 OPEN"]
+    tail = ["2 new-sem 12 s0 3 OPEN", "obs", "2 rel 12", "2 acq 12", "2 own 12", "2 free 12", "obs", "0 new-sem 13 s0 1 CREATE", "obs"]
+    return [
+        ([], "0 new-sem 0 s0 3 OPEN", tail),
+        (holder, "0 new-sem 0 s0 3 OPEN", tail),
+        ([], "0 new-sem 0 s0 3 CREATE", tail),
+        (holder, "0 new-sem 0 s0 3 CREATE", tail + ["1 rel 1", "obs"]),
+        (holder, "1 acq 1", ["1 acq 1", "obs"]),
+        (holder, "1 rel 1", ["1 rel 1", "obs"]),
+        (holder, "1 free 1", tail),                                  # the creator: sem_close, sem_unlink
+        (holder + ["2 new-sem 2 s0 0 OPEN"], "2 free 2", tail),      # a non-owner: sem_close only
+    ]
+
+
 def concurrent_create_cases():
     """two concurrent p_semaphore_new calls of which at least one is CREATE mode (outside the property's
     precondition; exercises the unlink / re-create loop): every schedule prefix of length 8"""
@@ -142,14 +158,22 @@ def run(chk):
     for setup, op, tail in eintr_scenarios():
         eintr += ipc.eintr_cases(setup, op, tail, counts=(1, 2, 3, 4, 5, 6, 150, 1000) if thorough else (1, 2, 6, 150))
     chk.cov["eintr_cases"] = len(eintr)
+    fails = []
+    for setup, op, tail in fail_scenarios():
+        fails += [ipc.prefilter(c) for c in ipc.fail_cases(setup, op, tail)]
+    chk.cov["scripted_failure_cases"] = len(fails)
+    chk.bump("scripted system-call failure cases", len(fails))
     depth = 4 if thorough else 3
     ex = list(exhaustive(depth))
     chk.cov["exhaustive_small_scope"] = {"depth": depth, "sequences": len(ex)}
     nr = 600 if thorough else 250
     rnd = [ipc.prefilter(ipc.gen_history(rng, chk, rng.choice([8, 25, 70]), sem_w=1.0, shm_w=0.0)) for _ in range(nr)]
+    rnd += [ipc.prefilter(ipc.sprinkle_failures(rng, ipc.gen_history(rng, chk, rng.choice([8, 25, 70]), sem_w=1.0, shm_w=0.0))) for _ in range(nr // 5)]
 
     R.run(DIRECTED, batch=1)
     R.run(corpus + crash + eintr, batch=20)
+    R.run([["0 null", "obs", "1 new-sem 0 s0 1 OPEN", "1 null", "obs"]], batch=1)      # NULL / invalid-argument guards of every public call
+    R.run(fails, batch=20)
     R.run(ex, batch=40)
     R.run(rnd, batch=10)
     conc = [ipc.prefilter(c) for c in concurrent_create_cases()]
@@ -165,11 +189,12 @@ def run(chk):
     Rs = ipc_sysv.run_c06(chk, cfg, ex)
     if getattr(Rs, "new_violations", 0):
         R.found = True      # a concrete System V replay was reported: no additional no-failing-input-found line
-    R.conclude(DIRECTED + crash + eintr + ex[:400] + rnd, "C06 named semaphore")
+    R.conclude(DIRECTED + crash + eintr + fails + ex[:400] + rnd, "C06 named semaphore")
     chk.cov["harness_leftovers_in_dev_shm"] = fam.leftovers
     chk.cov["rule"] = ("op files over 3 worker processes x 4 names (two differing only in the first byte, with a percent sign and non-ASCII bytes; two ~300 bytes long differing only in the last byte) x 16 handles: new OPEN/CREATE (init 0..3, 257, 300, 70000), acquire only when the model has a unit, release, take_ownership, free, SIGKILL of idle processes; "
                        "after every op the value of every name (drained through a fresh OPEN handle in an observer process%s), presence of /dev/shm/sem.<key> and the system calls made are compared with the model; "
                        "crash: SIGKILL before/after every system call of new/free/acquire/release (9 scenarios), then open/take_ownership/free/create(v); EINTR n<=6 at every k; "
+                       "scripted failures: every system call of new OPEN/CREATE (fresh / existing name), acquire, release, free (owner / non-owner) fails with errno rotating over ENOMEM/EACCES/EMFILE/EINVAL/EBADF/ENOENT (opens also EEXIST/ENOENT/EINTR), and every later call of that run (unlink / retry / close) fails too, then recovery through the API; NULL / negative-value guards of every public call; "
                        "exhaustive: all legal call sequences of length %d on one name from two processes; distinct by op-file hash, non-trivial = more than one op; "
                        "System V variant (harness/ipc_sysv.c, model PV.Model.IPCSysV, theorems PV.Props.C06sysv): the directed histories, a sample of the exhaustive sequences and random histories with SIGKILL of workers between calls, "
                        "every answer and the value of every name after every op (drained through the API by an observer, cross-checked with semctl GETVAL) compared with the spec column where the statement determines it, and EVERY answer line (system calls with flags and results, observer views) with the System V model column, crash points at every system call of new/free/recreating acquire/release and EINTR scripts included"
